@@ -321,7 +321,10 @@ pub fn explore(mode: Mode, tier: Tier, st: &mut Stats, replay: Option<&[Op]>) ->
                     for f in 0..nf {
                         n.dest[f] = after[f].0;
                     }
-                    let all_valid = (0..nf).all(|f| gs[s.g[f]].2);
+                    // directory mode: a grammar file that does not exist is simply not part of the run (nothing to
+                    // compile, its destination must stay as it is); in file mode a missing source is an error
+                    let present = |f: usize| !(mode == Mode::Directory && gs[s.g[f]].1.is_none());
+                    let all_valid = (0..nf).all(|f| !present(f) || gs[s.g[f]].2);
                     let hist = {
                         let mut h = history(&seen, &s);
                         h.push("run".into());
@@ -339,6 +342,12 @@ pub fn explore(mode: Mode, tier: Tier, st: &mut Stats, replay: Option<&[Op]>) ->
                             fail("valid-grammar-run-fails", "Ok(())".into(), e.clone());
                         } else {
                             for f in 0..nf {
+                                if !present(f) {
+                                    if after[f].0 != s.dest[f] || (s.dest[f].is_some() && after[f].1 != Some(SENTINEL)) {
+                                        fail("destination-without-grammar-touched", "a destination whose grammar file does not exist is left alone".into(), "changed".into());
+                                    }
+                                    continue;
+                                }
                                 let gtext = gs[s.g[f]].1.unwrap();
                                 let was_current = s.dest[f].map(|c| {
                                     if mode == Mode::FileExplicitFormat {
@@ -370,7 +379,13 @@ pub fn explore(mode: Mode, tier: Tier, st: &mut Stats, replay: Option<&[Op]>) ->
                             Err(e) if e.starts_with("PANIC") => fail("run-panics", "Err".into(), e.clone()),
                             Err(_) => {
                                 for f in 0..nf {
-                                    let valid = gs[s.g[f]].2;
+                                    let valid = gs[s.g[f]].2 && present(f);
+                                    if !present(f) {
+                                        if after[f].0 != s.dest[f] {
+                                            fail("destination-without-grammar-touched", "a destination whose grammar file does not exist is left alone".into(), "changed".into());
+                                        }
+                                        continue;
+                                    }
                                     let unchanged = after[f].0 == s.dest[f] && (s.dest[f].is_none() || after[f].1 == Some(SENTINEL));
                                     if !valid {
                                         if !unchanged {
